@@ -55,3 +55,14 @@ pub open spec fn remove_cont_from(pending: bool, rest: Seq<char>) -> Seq<char> {
 }
 pub assume_specification [std::string::String::with_capacity] (n: usize) -> (r: std::string::String)
     ensures r@ == Seq::<char>::empty();
+
+// str::replace(&str, &str) (std: "replaces all matches of a pattern with another string", left to right, non-overlapping): available as
+// a stub so that a body written with it is verified against the contract instead of stopping the run
+pub open spec fn starts_with_seq(s: Seq<char>, p: Seq<char>) -> bool { p.len() <= s.len() && s.take(p.len() as int) == p }
+pub open spec fn replace_all(s: Seq<char>, pat: Seq<char>, rep: Seq<char>) -> Seq<char> decreases s.len() {
+    if s.len() == 0 || pat.len() == 0 { s }
+    else if starts_with_seq(s, pat) { rep + replace_all(s.skip(pat.len() as int), pat, rep) }
+    else { seq![s[0]] + replace_all(s.skip(1), pat, rep) }
+}
+#[verifier::external_body]
+pub fn str_replace_str(s: &str, pat: &str, rep: &str) -> (r: String) ensures r@ == replace_all(s@, pat@, rep@) { unimplemented!() }
